@@ -237,9 +237,17 @@ func execOpCase(c *Case) []ModeResult {
 
 // helper calls: functions of package ops that the properties name directly (C14).
 func execHelperCase(c *Case) []ModeResult {
+	o := execHelper(c)
+	if o.Kind == "harness" {
+		return []ModeResult{{"helper", "harness:" + o.Note, ""}}
+	}
+	return []ModeResult{{"helper", Verdict(c, o), o.Short()}}
+}
+
+func execHelper(c *Case) Observation {
 	inputs, err := mkInputs(c)
 	if err != nil {
-		return []ModeResult{{"helper", "harness:" + err.Error(), ""}}
+		return Observation{Kind: "harness", Note: err.Error()}
 	}
 	before := snapshotAll(inputs)
 	o := guard(func() Observation {
@@ -260,5 +268,5 @@ func execHelperCase(c *Case) []ModeResult {
 		return Observation{Kind: "harness", Note: "unknown helper " + c.Op}
 	})
 	o.Changed = diffSnapshots(before, snapshotAll(inputs))
-	return []ModeResult{{"helper", Verdict(c, o), o.Short()}}
+	return o
 }
